@@ -5,7 +5,9 @@ Local Open Scope Z_scope.
 
 (* numpy a[i] for 0 <= i < len a; outside that range the model returns the default (theorems state the range) *)
 Definition tlookup (t : list Z) (i : Z) : Z := nth (Z.to_nat i) t 0.
-Definition tlookup2 (t : list (list Z)) (i j : Z) : Z := nth (Z.to_nat j) (nth (Z.to_nat i) t []) 0.
+(* 2-D numpy array a[i, j] stored row-major with row width w *)
+Record tab2 := { t2w : Z; t2flat : list Z }.
+Definition tlookup2 (t : tab2) (i j : Z) : Z := tlookup (t2flat t) (i * t2w t + j).
 
 Definition in_range (t : list Z) (i : Z) : bool := (0 <=? i) && (i <? Z.of_nat (length t)).
 
@@ -35,3 +37,7 @@ Qed.
 Lemma forallb_zseq (P : Z -> bool) n :
   forallb P (zseq n) = true -> forall i, 0 <= i < n -> P i = true.
 Proof. intros H i Hi. rewrite forallb_forall in H. apply H. apply in_zseq. exact Hi. Qed.
+
+Lemma forallb_nth {A} (P : A -> bool) (l : list A) (d : A) (i : nat) :
+  forallb P l = true -> (i < length l)%nat -> P (nth i l d) = true.
+Proof. intros H Hi. rewrite forallb_forall in H. apply H. apply nth_In. exact Hi. Qed.
